@@ -51,7 +51,10 @@ theorem iters_no_index (und : Bool) (maxAtt : Nat) : ∀ (it : Nat) (R : AMat In
       exact iters_no_index und maxAtt it R1 _ rest1
 
 theorem run_no_index (und : Bool) (R : AMat Int n) (itr : Nat) (ds : List Nat) : run und R itr ds ≠ .error .index := by
-  unfold run; cases und <;> simp only [if_true, Bool.false_eq_true, if_false] <;> exact iters_no_index _ _ _ _ _ _
+  unfold run
+  split
+  · simp
+  · cases und <;> simp only [if_true, Bool.false_eq_true, if_false] <;> exact iters_no_index _ _ _ _ _ _
 
 /-! ### dealing -/
 
